@@ -84,6 +84,26 @@ impl Rng {
     }
 }
 
+/// A random non-ASCII alphabetic character from several Unicode blocks (so that
+/// the trailing UTF-8 byte takes every continuation value, incl. 0x85 and 0xA0).
+pub fn unicode_letter(rng: &mut Rng) -> char {
+    loop {
+        let cp = match rng.below(6) {
+            0 => 0xC0 + rng.below(0x40) as u32,    // Latin-1 letters
+            1 => 0x100 + rng.below(0x80) as u32,   // Latin Extended-A
+            2 => 0x391 + rng.below(0x39) as u32,   // Greek
+            3 => 0x410 + rng.below(0x40) as u32,   // Cyrillic
+            4 => 0x4E00 + rng.below(0x100) as u32, // CJK
+            _ => 0x905 + rng.below(0x35) as u32,   // Devanagari letters
+        };
+        if let Some(c) = char::from_u32(cp) {
+            if c.is_alphabetic() {
+                return c;
+            }
+        }
+    }
+}
+
 pub fn selftest() -> Result<(), String> {
     // splitmix64 reference vector (seed 1234567): first outputs from the reference C code.
     let mut st = 1234567u64;
